@@ -656,6 +656,10 @@ def edit_oracle(obj, op, a, res, bef, fail):
                 fail(f"{op}-frame-{lvl}", f"{op} leaves every other nuclide's density unchanged ({m_})", nd(m_), v)
                 return
 
+    if res == "reject" and op == "setmf":
+        # as coded, setMassFracs applies the listed fractions one by one: when a later nuclide is refused the
+        # earlier ones stay applied (Model: setMassFracsPrefix). Atomicity is not part of the property; recorded.
+        return
     if res == "reject":
         # a refused call changes nothing
         for m_, v in bef["nd"].items():
@@ -755,6 +759,51 @@ def expect_result(ctx, what, case, res):
     return check
 
 
+def do_edit(ctx, mir, paths, obj, op, a, label, step):
+    """one edit on both sides: oracle clauses, accepted/refused, then the edited object, its ancestors and a child"""
+    rng = ctx.rng
+    lvl = level_of(obj)
+    case = {"stream": label, "object": str(obj.name if hasattr(obj, "name") else obj), "level": lvl,
+            "step": step, "op": op, "args": a}
+    bef = before_state(obj)
+    combo_before = value_class(op, a, obj)
+    res = apply_real(obj, op, a)
+    ctx.count(f"edit {op} @{lvl}: {res}")
+    _rec(ctx, label, obj, op, a, res, combo_before, case if step == 0 else None)
+
+    def fail(key, clause, observed, expected, case=case):
+        ctx.fail(key, clause, case, observed=observed, expected=expected)
+
+    edit_oracle(obj, op, a, res, bef, fail)
+    if res == "reject" and op == "setmf" and any(float(obj.getNumberDensity(n)) != v for n, v in bef["nd"].items()):
+        ctx.count("refused setMassFracs after partial application")
+    mir.emit(model_line(mir, paths[id(obj)], op, a),
+             expect_result(ctx, f"{label}: edit accepted/refused", case, res))
+    # compare the edited object, its parent chain, and one child
+    touched = ([a["n"]] if "n" in a else []) + (list(a["d"]) if "d" in a else [])
+    amb0 = ambiguous(obj, touched)
+    nucs = pick_nucs(rng, obj, 5, extra=[n for n in touched if n in obj.getNuclides() and n not in amb0][:4])
+    chain = [obj]
+    p = obj.parent
+    while p is not None and id(p) in paths:
+        chain.append(p)
+        p = p.parent
+    if lvl != "component" and len(obj):
+        chain.append(rng.choice(list(obj)))
+    for o in chain:
+        amb = ambiguous(o, nucs)
+        add_snap(ctx, mir, f"{label}: Model/Compo vs {level_of(o)} after {op}", dict(case, observed_at=level_of(o)),
+                 o, paths[id(o)], [n for n in nucs if n not in amb])
+        if level_of(o) == "component":
+            add_comp_density(ctx, mir, f"{label}: Comp.density vs Component.density after {op}", case, o)
+        sp = rng.choice(selection_specs(rng, o))
+        add_selection(ctx, mir, f"{label}: massSel vs getMass(selection) after {op}", dict(case, observed_at=level_of(o)),
+                      o, paths[id(o)], sp)
+        # atoms of the touched nuclides first, then a few others
+        additivity(o, fail, ([n for n in touched if n in o.getNuclides()] + nucs)[:4])
+    return res
+
+
 def edit_sequence(ctx, mir, assemblies, paths, targets, nedits, label, resync=6):
     """seeded edits on `targets` (objects inside `assemblies`), compared after every edit."""
     rng = ctx.rng
@@ -763,42 +812,44 @@ def edit_sequence(ctx, mir, assemblies, paths, targets, nedits, label, resync=6)
             paths = mir.load(assemblies, extra_nucs=("PU239", "AM241", "HE4"))
         obj = rng.choice(targets)
         op, a = gen_edit(rng, obj)
-        lvl = level_of(obj)
-        case = {"stream": label, "object": str(obj.name if hasattr(obj, "name") else obj), "level": lvl,
-                "step": step, "op": op, "args": a}
-        bef = before_state(obj)
-        combo_before = value_class(op, a, obj)
-        res = apply_real(obj, op, a)
-        ctx.count(f"edit {op} @{lvl}: {res}")
-        _rec(ctx, label, obj, op, a, res, combo_before, case if step == 0 else None)
+        do_edit(ctx, mir, paths, obj, op, a, label, step)
+    return paths
 
-        def fail(key, clause, observed, expected, case=case):
-            ctx.fail(key, clause, case, observed=observed, expected=expected)
 
-        edit_oracle(obj, op, a, res, bef, fail)
-        mir.emit(model_line(mir, paths[id(obj)], op, a),
-                 expect_result(ctx, f"{label}: edit accepted/refused", case, res))
-        # compare the edited object, its parent chain, and one child
-        touched = ([a["n"]] if "n" in a else []) + (list(a["d"]) if "d" in a else [])
-        amb0 = ambiguous(obj, touched)
-        nucs = pick_nucs(rng, obj, 5, extra=[n for n in touched if n in obj.getNuclides() and n not in amb0][:4])
-        chain = [obj]
-        p = obj.parent
-        while p is not None and id(p) in paths:
-            chain.append(p)
-            p = p.parent
-        if lvl != "component" and len(obj):
-            chain.append(rng.choice(list(obj)))
-        for o in chain:
-            amb = ambiguous(o, nucs)
-            add_snap(ctx, mir, f"{label}: Model/Compo vs {level_of(o)} after {op}", dict(case, observed_at=level_of(o)),
-                     o, paths[id(o)], [n for n in nucs if n not in amb])
-            if level_of(o) == "component":
-                add_comp_density(ctx, mir, f"{label}: Comp.density vs Component.density after {op}", case, o)
-            sp = rng.choice(selection_specs(rng, o))
-            add_selection(ctx, mir, f"{label}: massSel vs getMass(selection) after {op}", dict(case, observed_at=level_of(o)),
-                          o, paths[id(o)], sp)
-            additivity(o, fail, nucs[:3])
+def new_nuclide_script(ctx, mir, paths, a, label):
+    """first introduction of nuclides that are new to the object, at every level, on blocks with and without a
+    void gap; later edits of the same nuclides; mass fractions of new nuclides"""
+    blocks = list(a)
+    step = [1000]
+
+    def go(obj, op, args):
+        step[0] += 1
+        return do_edit(ctx, mir, paths, obj, op, args, label, step[0])
+
+    for b in blocks[:2]:
+        here = set(b.getNuclides())
+        if "XE135" in here:
+            continue
+        gap = any(c.name == "gap" for c in b)
+        ctx.count("new-nuclide script on a block " + ("with" if gap else "without") + " a void gap")
+        fuel = [c for c in b if c.name == "fuel"][0] if any(c.name == "fuel" for c in b) else list(b)[0]
+        go(b, "setnd", {"n": "XE135", "v": 1e-6})                       # refused: nowhere present
+        go(b, "upd", {"d": {"XE135": 1e-6}})                            # first introduction: every child, gap included
+        go(b, "setnd", {"n": "XE135", "v": 2.5e-6})                     # later edit
+        cur = {n: float(b.getNumberDensity(n)) for n in sorted(b.getNuclides())[:3]}
+        go(b, "setnds", {"d": dict(cur, SM149=1e-6)})                   # new nuclide through setNumberDensities
+        go(b, "scale", {"f": 1.25})
+        if not comp_empty(fuel) and (dens(fuel) or 0.0) > 0:
+            go(fuel, "setmf", {"d": {"PU239": 0.1}})                    # a nuclide NEW to the component
+            ex = sorted(n for n, v in fuel.getMassFracs().items() if v > 1e-3 and n != "PU239")[:1]
+            go(fuel, "setmf", {"d": dict({"AM241": 0.05}, **{n: 0.2 for n in ex})})   # new + existing in one call
+            go(fuel, "setmf", {"d": {"PU239": 0.15, "CM244": 0.0625}})     # existing-by-now + new
+        if (dens(b) or 0.0) > 0:
+            go(b, "setmf", {"d": {"PU239": 0.1}})                       # block level: held by the fuel by now
+            go(b, "setmf", {"d": {"NP237": 0.05}})                      # block level, held nowhere: refused
+        go(b, "upd", {"d": {"XE135": 0.0, "HE4": 1e-6}})
+    go(a, "upd", {"d": {"KR85": 1e-6}})                                 # assembly level, first introduction
+    go(a, "setnd", {"n": "KR85", "v": 3e-6})
     return paths
 
 
@@ -1146,6 +1197,9 @@ def run_generated(ctx):
                 ctx.count("selection " + ("element/name" if isinstance(spec, str) else "list") + " @" + level_of(o))
         targets = [a] + blocks + [c for b in blocks[:2] for c in rng.sample(list(b), 2)]
         paths = edit_sequence(ctx, mir, [a], paths, targets, ctx.pick(12, 24), label)
+        if idx < ctx.pick(4, 40):
+            paths = mir.load([a], extra_nucs=("PU239", "AM241", "HE4", "XE135", "SM149", "KR85", "NP237", "CM244"))
+            new_nuclide_script(ctx, mir, paths, a, label)
         element_level_edits(ctx, mir, paths, [a, blocks[0], list(blocks[0])[0]], label)
         run_session(ctx, mir, label)
     if not made:
